@@ -70,7 +70,7 @@ ATOMS = [
     "%40", "%3A", "%25", "%2B", "%2541", "%E9", "%e9", "%00", "%0A", "%7F", "%7f", "%C2%85",
     "%C2", "%85", "%A9", "%F0%9F%8D%8A", "%F0%9F", "%ED%A0%80", "%C0%80", "%", "%4", "%zz",
     "4", "1", "zz", "\t", "\n", "%5B", "%E2%82",
-    "%C2%A0", "%E3%80%80", "%E2%80%83", "%e2%80%a8", "\u3000", "\xa0", "%E1%9A%80", "%E2%81%9F", "%E2%80%AF",
+    "%C2%A0", "%E3%80%80", "%E2%80%83", "%e2%80%a8", "\u3000", "\xa0", "\u2028", "%E1%9A%80", "%E2%81%9F", "%E2%80%AF",
 ]
 FNS = [
     "safely_quote",
@@ -83,6 +83,7 @@ FNS = [
 CORPUS = [
     "/%2541", "/a%E9b", "%7F%C2%85", "a b", "/%2F", "u%2Fx", "%%34%31", "%zz", "%", "%4",
     "x%E3%80%80", "%C2%A0x%E2%80%83", "t%C3%A9%40%3A%20", "é%3F%26%3D%20 ", "%C3é", "%E2%82%AC", "%e2%82%ac%41", "%F4%90%80%80",
+    "a\xa0b", "x\u3000", "\u2028%41", "%E2\xa0%A0", "%C2\xa0", "\xa0%A0", "\x85%85",
 ]
 BYTE_ATOMS = [
     [0x41], [0x20], [0xC3, 0xA9], [0xC3], [0xA9], [0xE2, 0x82, 0xAC], [0xE2, 0x82], [0xE2], [0x82],
